@@ -1134,4 +1134,331 @@ theorem ident_kind (segs : List Str) (last : Str) (h : wfIdent (segs ++ [last]))
     · intro hd'; subst hd'
       exact ident_scanNot_blank hX hk tl
 
+
+/-! ### decimal / exponent numbers -/
+
+theorem lexOne_float {env : CharEnv} {cs v r : Str} (h1 : scanDuration env cs = none) (h2 : scanString cs = none)
+    (h3 : scanGeography env cs = none) (h4 : scanGuid env cs = none) (h5 : scanDateTime env cs = none)
+    (h6 : scanDatePart env cs = none) (h7 : scanTime env cs = none) (h8 : scanDecimal env cs = some (v, r)) :
+    lexOne env cs = some (.lit .float v, r) := by
+  simp [lexOne, h1, h2, h3, h4, h5, h6, h7, h8]
+
+theorem takeN_decomp (p : Char → Bool) : ∀ (n : Nat) (cs m r : Str), takeN p n cs = some (m, r) → cs = m ++ r
+  | 0, cs, m, r, h => by simp [takeN] at h; obtain ⟨rfl, rfl⟩ := h; rfl
+  | n + 1, [], m, r, h => by simp [takeN] at h
+  | n + 1, c :: cs, m, r, h => by
+    simp only [takeN] at h
+    split at h
+    · cases hk : takeN p n cs with
+      | none => simp [hk] at h
+      | some y =>
+        obtain ⟨m', r'⟩ := y
+        simp [hk] at h
+        obtain ⟨rfl, rfl⟩ := h
+        simp [takeN_decomp p n cs m' r' hk]
+    · simp at h
+
+/-- fewer than two `-`: not a GUID, not a date -/
+theorem scanGuid_fewminus {env : CharEnv} (cs : Str) (h : cs.count '-' ≤ 1) : scanGuid env cs = none := by
+  unfold scanGuid
+  cases h1 : takeN (isHex env) 8 cs with
+  | none => rfl
+  | some ar =>
+    obtain ⟨a, r⟩ := ar
+    have hd := takeN_decomp _ _ _ _ _ h1
+    cases r with
+    | nil => rfl
+    | cons c t =>
+      by_cases hc : c = '-'
+      · subst hc
+        have ht : t.count '-' = 0 := by
+          rw [hd] at h; simp [List.count_append] at h; omega
+        have htall : t.all (· != '-') = true := by
+          rw [List.all_eq_true]; intro x hx
+          have : x ≠ '-' := by rintro rfl; exact absurd (List.count_pos_iff.2 hx) (by omega)
+          simpa using this
+        simp only [Option.bind_eq_bind, Option.bind_some]
+        cases h2 : takeN (isHex env) 4 t with
+        | none => rfl
+        | some br =>
+          obtain ⟨b, r2⟩ := br
+          have hr2 := LexImage.takeN_rest (· != '-') (isHex env) 4 t b r2 h2 htall
+          cases r2 with
+          | nil => rfl
+          | cons c2 t2 =>
+            have : c2 ≠ '-' := by
+              simp only [List.all_cons, Bool.and_eq_true] at hr2
+              simpa using hr2.1
+            simp [this]
+      · simp [hc]
+
+theorem scanDatePart_fewminus {env : CharEnv} (cs : Str) (h : cs.count '-' ≤ 1) : scanDatePart env cs = none := by
+  unfold scanDatePart
+  split
+  · simp [List.count_cons] at h; omega
+  · rfl
+
+
+def fracT (fr : Option (Nat × Nat)) : Str := match fr with | none => [] | some (wf, nf) => '.' :: pad (wf + 1) nf
+
+theorem decimalText_eq (sg : Sign) (wi ni : Nat) (fr : Option (Nat × Nat)) (ex : Expo) :
+    decimalText sg wi ni fr ex = sg.text ++ (pad (wi + 1) ni ++ (fracT fr ++ ex.text)) := by
+  rcases fr with _ | ⟨wf, nf⟩ <;> simp [decimalText, fracT, List.append_assoc]
+
+theorem ci_e_e : ciChar E 'e' 'e' = true := by decide +kernel
+theorem ci_e_E : ciChar E 'e' 'E' = true := by decide +kernel
+theorem isDigit_e : E.isDigit 'e' = false := by decide +kernel
+theorem isDigit_E : E.isDigit 'E' = false := by decide +kernel
+
+theorem span1_pad (w n : Nat) (r : Str) (hr : ∀ c t, r = c :: t → E.isDigit c = false) :
+    span1 E.isDigit (pad (w + 1) n ++ r) = some (pad (w + 1) n, r) :=
+  span1_all E.isDigit _ r (pad_ne_nil w n) (pad_digits _ _) hr
+
+theorem scanInteger_signed (sg : Sign) (w n : Nat) (r : Str) (hr : ∀ c t, r = c :: t → E.isDigit c = false) :
+    scanInteger E (sg.text ++ (pad (w + 1) n ++ r)) = some (sg.text ++ pad (w + 1) n, r) := by
+  have h1 := span1_pad w n r hr
+  cases sg with
+  | none =>
+    obtain ⟨t, ht⟩ := pad_head w n
+    simp only [Sign.text, List.nil_append]
+    rw [ht] at h1 ⊢
+    unfold scanInteger
+    split
+    · rename_i heq; simp at heq; exact absurd heq.1 (digitChar_ne_plus _)
+    · rename_i heq; simp at heq; exact absurd heq.1 (digitChar_ne_minus _)
+    · exact h1
+  | plus => simp [Sign.text, scanInteger, h1]
+  | minus => simp [Sign.text, scanInteger, h1]
+
+theorem scanExponent_text (u : Bool) (sg : Sign) (w n : Nat) :
+    scanExponent E ((if u then 'E' else 'e') :: (sg.text ++ pad (w + 1) n)) = some ((if u then 'E' else 'e') :: (sg.text ++ pad (w + 1) n), []) := by
+  have h1 := span1_pad w n [] (by intro c t h; cases h)
+  rw [List.append_nil] at h1
+  have hci : ciChar E 'e' (if u then 'E' else 'e') = true := by cases u <;> simp [ci_e_e, ci_e_E]
+  cases sg with
+  | none =>
+    obtain ⟨t, ht⟩ := pad_head w n
+    simp only [Sign.text, List.nil_append]
+    rw [ht] at h1 ⊢
+    unfold scanExponent
+    simp only [hci, if_true]
+    split
+    · rename_i heq; simp at heq; exact absurd heq.1 (digitChar_ne_plus _)
+    · rename_i heq; simp at heq; exact absurd heq.1 (digitChar_ne_minus _)
+    · simp [h1]
+  | plus => simp [Sign.text, scanExponent, hci, h1]
+  | minus => simp [Sign.text, scanExponent, hci, h1]
+
+theorem expo_text_eq (u : Bool) (sg : Sign) (w n : Nat) :
+    (Expo.some u sg w n).text = (if u then 'E' else 'e') :: (sg.text ++ pad (w + 1) n) := by
+  simp [Expo.text]
+
+theorem expo_head_nodigit (ex : Expo) : ∀ c t, ex.text = c :: t → E.isDigit c = false ∧ c ≠ '.' := by
+  intro c t h
+  cases ex with
+  | none => cases h
+  | some u sg w n =>
+    rw [expo_text_eq] at h
+    simp only [List.cons.injEq] at h
+    obtain ⟨rfl, _⟩ := h
+    cases u <;> exact ⟨by decide +kernel, by decide⟩
+
+theorem scanDecimal_text (sg : Sign) (wi ni : Nat) (fr : Option (Nat × Nat)) (ex : Expo) (hfe : fr ≠ none ∨ ex ≠ .none) :
+    scanDecimal E (sg.text ++ (pad (wi + 1) ni ++ (fracT fr ++ ex.text))) = some (sg.text ++ (pad (wi + 1) ni ++ (fracT fr ++ ex.text)), []) := by
+  rcases fr with _ | ⟨wf, nf⟩
+  · -- no fraction: the exponent is there
+    cases ex with
+    | none => simp at hfe
+    | some u sg' w n =>
+      have hi := scanInteger_signed sg wi ni (Expo.some u sg' w n).text (fun c t h => (expo_head_nodigit _ c t h).1)
+      have he := scanExponent_text u sg' w n
+      simp only [fracT, List.nil_append]
+      rw [expo_text_eq] at hi ⊢
+      unfold scanDecimal
+      simp only [hi, Option.bind_eq_bind, Option.bind_some]
+      split
+      · rename_i heq; simp at heq; cases u <;> simp at heq
+      · simp [he]
+  · have hi := scanInteger_signed sg wi ni ('.' :: (pad (wf + 1) nf ++ ex.text)) (by intro c t h; cases h; exact isDigit_dot)
+    have hf := span1_pad wf nf ex.text (fun c t h => (expo_head_nodigit _ c t h).1)
+    simp only [fracT, List.cons_append]
+    unfold scanDecimal
+    simp only [hi, Option.bind_eq_bind, Option.bind_some, hf]
+    cases ex with
+    | none => simp [Expo.text, scanExponent]
+    | some u sg' w n =>
+      have he := scanExponent_text u sg' w n
+      rw [expo_text_eq]
+      simp [he]
+
+
+theorem count_pad (w n : Nat) : (pad w n).count '-' = 0 := by
+  rw [List.count_eq_zero]
+  intro h
+  exact pad_all (· ≠ '-') (by decide) w n _ h rfl
+
+theorem count_fracT (fr : Option (Nat × Nat)) : (fracT fr).count '-' = 0 := by
+  rcases fr with _ | ⟨wf, nf⟩
+  · rfl
+  · simp [fracT, List.count_cons, count_pad]
+
+theorem count_expo (ex : Expo) : ex.text.count '-' ≤ 1 := by
+  cases ex with
+  | none => simp [Expo.text]
+  | some u sg w n =>
+    rw [expo_text_eq]
+    cases u <;> cases sg <;> simp [Sign.text, List.count_cons, List.count_append, count_pad]
+
+theorem nocolon_pad (w n : Nat) : (pad w n).all (· != ':') = true := pad_allB _ (by decide) w n
+
+theorem nocolon_decimal (sg : Sign) (wi ni : Nat) (fr : Option (Nat × Nat)) (ex : Expo) :
+    (sg.text ++ (pad (wi + 1) ni ++ (fracT fr ++ ex.text))).all (· != ':') = true := by
+  have h1 : sg.text.all (· != ':') = true := by cases sg <;> decide
+  have h2 : (fracT fr).all (· != ':') = true := by
+    rcases fr with _ | ⟨wf, nf⟩
+    · rfl
+    · simp only [fracT, List.all_cons, nocolon_pad]; decide
+  have h3 : ex.text.all (· != ':') = true := by
+    cases ex with
+    | none => rfl
+    | some u sg' w n =>
+      rw [expo_text_eq]
+      have : sg'.text.all (· != ':') = true := by cases sg' <;> decide
+      cases u <;> simp only [List.all_cons, List.all_append, this, nocolon_pad] <;> decide
+  simp only [List.all_append, h1, h2, h3, nocolon_pad, Bool.and_self]
+
+theorem decimal_alone (sg : Sign) (wi ni : Nat) (fr : Option (Nat × Nat)) (ex : Expo) (hfe : fr ≠ none ∨ ex ≠ .none) :
+    lexOne E (decimalText sg wi ni fr ex) = some (.lit .float (decimalText sg wi ni fr ex), []) := by
+  rw [decimalText_eq]
+  have hdec := scanDecimal_text sg wi ni fr ex hfe
+  have htime : scanTime E (sg.text ++ (pad (wi + 1) ni ++ (fracT fr ++ ex.text))) = none := by
+    simp [scanTime, scanHourMinute_nocolon _ (nocolon_decimal sg wi ni fr ex)]
+  cases sg with
+  | none =>
+    simp only [Sign.text, List.nil_append] at hdec htime ⊢
+    have hcount : (pad (wi + 1) ni ++ (fracT fr ++ ex.text)).count '-' ≤ 1 := by
+      have := count_expo ex
+      simp [List.count_append, count_pad, count_fracT, this]
+    have hdp := scanDatePart_fewminus (env := E) _ hcount
+    have hg := scanGuid_fewminus (env := E) _ hcount
+    obtain ⟨t, ht⟩ := pad_head wi ni
+    refine lexOne_float ?_ ?_ ?_ hg ?_ hdp htime hdec
+    · rw [ht]; exact (pre3_digit _ _).1
+    · rw [ht]; exact (pre3_digit _ _).2.1
+    · rw [ht]; exact (pre3_digit _ _).2.2
+    · simp [scanDateTime, hdp]
+  | plus =>
+    simp only [Sign.text, List.cons_append, List.nil_append] at hdec htime ⊢
+    exact lexOne_float (scanDuration_head (by decide +kernel)) (scanString_head (by decide)) (scanGeography_head (by decide +kernel))
+      (scanGuid_head (by decide +kernel)) (scanDateTime_head (by decide +kernel)) (scanDatePart_head (by decide +kernel)) htime hdec
+  | minus =>
+    simp only [Sign.text, List.cons_append, List.nil_append] at hdec htime ⊢
+    exact lexOne_float (scanDuration_head (by decide +kernel)) (scanString_head (by decide)) (scanGeography_head (by decide +kernel))
+      (scanGuid_head (by decide +kernel)) (scanDateTime_head (by decide +kernel)) (scanDatePart_head (by decide +kernel)) htime hdec
+
+theorem decimal_kind (sg : Sign) (wi ni : Nat) (fr : Option (Nat × Nat)) (ex : Expo) (hi : ni < 10 ^ (wi + 1))
+    (hf : ∀ wf nf, fr = some (wf, nf) → nf < 10 ^ (wf + 1)) (he : ex.ok) (hfe : fr ≠ none ∨ ex ≠ .none) (rest : Str) (hb : boundary rest) :
+    lexOne pyCharEnv (decimalText sg wi ni fr ex ++ rest) = some (.lit .float (decimalText sg wi ni fr ex), rest) :=
+  lexOne_boundary (decimal_alone sg wi ni fr ex hfe) rest hb
+
+
+/-! ### Boolean, null in any letter case -/
+
+/-- a letter in the chosen case -/
+def cl (b : Bool) (p : Char) : Char := if b then (if 'a' ≤ p ∧ p ≤ 'z' then Char.ofNat (p.toNat - 32) else p) else p
+
+theorem caseWord4 (up : Nat → Bool) (a b c d : Char) :
+    caseWord up [a, b, c, d] = [cl (up 0) a, cl (up 1) b, cl (up 2) c, cl (up 3) d] := by
+  simp [caseWord, cl, List.zipIdx]
+theorem caseWord5 (up : Nat → Bool) (a b c d e : Char) :
+    caseWord up [a, b, c, d, e] = [cl (up 0) a, cl (up 1) b, cl (up 2) c, cl (up 3) d, cl (up 4) e] := by
+  simp [caseWord, cl, List.zipIdx]
+
+theorem true_alone : ∀ b0 b1 b2 b3 : Bool, lexOne E [cl b0 't', cl b1 'r', cl b2 'u', cl b3 'e'] =
+    some (.lit .bool [cl b0 't', cl b1 'r', cl b2 'u', cl b3 'e'], []) ∧
+    pyVal .bool [cl b0 't', cl b1 'r', cl b2 'u', cl b3 'e'] = .ok (.bool true) := by decide +kernel
+
+theorem false_alone : ∀ b0 b1 b2 b3 b4 : Bool, lexOne E [cl b0 'f', cl b1 'a', cl b2 'l', cl b3 's', cl b4 'e'] =
+    some (.lit .bool [cl b0 'f', cl b1 'a', cl b2 'l', cl b3 's', cl b4 'e'], []) ∧
+    pyVal .bool [cl b0 'f', cl b1 'a', cl b2 'l', cl b3 's', cl b4 'e'] = .ok (.bool false) := by decide +kernel
+
+theorem null_alone : ∀ b0 b1 b2 b3 : Bool, lexOne E [cl b0 'n', cl b1 'u', cl b2 'l', cl b3 'l'] = some (.lit .null [], []) := by
+  decide +kernel
+
+theorem bool_kind (up : Nat → Bool) (b : Bool) (rest : Str) (hb : boundary rest) :
+    lexOne pyCharEnv (caseWord up (if b then "true".toList else "false".toList) ++ rest)
+      = some (.lit .bool (caseWord up (if b then "true".toList else "false".toList)), rest)
+    ∧ pyVal .bool (caseWord up (if b then "true".toList else "false".toList)) = .ok (.bool b) := by
+  cases b
+  · have e : caseWord up (if false = true then "true".toList else "false".toList) =
+        [cl (up 0) 'f', cl (up 1) 'a', cl (up 2) 'l', cl (up 3) 's', cl (up 4) 'e'] := caseWord5 up _ _ _ _ _
+    rw [e]
+    have := false_alone (up 0) (up 1) (up 2) (up 3) (up 4)
+    exact ⟨lexOne_boundary this.1 rest hb, this.2⟩
+  · have e : caseWord up (if true = true then "true".toList else "false".toList) =
+        [cl (up 0) 't', cl (up 1) 'r', cl (up 2) 'u', cl (up 3) 'e'] := caseWord4 up _ _ _ _
+    rw [e]
+    have := true_alone (up 0) (up 1) (up 2) (up 3)
+    exact ⟨lexOne_boundary this.1 rest hb, this.2⟩
+
+theorem null_kind (up : Nat → Bool) (rest : Str) (hb : boundary rest) :
+    lexOne pyCharEnv (caseWord up "null".toList ++ rest) = some (.lit .null [], rest) := by
+  have e : caseWord up "null".toList = [cl (up 0) 'n', cl (up 1) 'u', cl (up 2) 'l', cl (up 3) 'l'] := caseWord4 up _ _ _ _
+  rw [e]
+  exact lexOne_boundary (null_alone _ _ _ _) rest hb
+
+
+/-! ### geography literals -/
+
+theorem lexOne_geo {env : CharEnv} {cs v r : Str} (h1 : scanDuration env cs = none) (h2 : scanString cs = none)
+    (h3 : scanGeography env cs = some (v, r)) : lexOne env cs = some (.lit .geo v, r) := by
+  simp [lexOne, h1, h2, h3]
+
+theorem ciChar_cl {env : CharEnv} (b : Bool) (p : Char) (hp : isAsciiLower p = true) : ciChar env p (cl b p) = true := by
+  have h' : 'a' ≤ p ∧ p ≤ 'z' := by simpa [isAsciiLower] using hp
+  cases b
+  · simp [ciChar, cl, hp]
+  · simp [ciChar, cl, hp, asciiUpper, h']
+
+/-- the keyword `w` spelled in any letter case, then a quote, matches the pattern `w'` -/
+theorem kw_cased {env : CharEnv} (up : Nat → Bool) : ∀ (w : Str) (k : Nat) (r : Str), (∀ p ∈ w, isAsciiLower p = true) →
+    kw env (w ++ ['\'']) ((w.zipIdx k).map (fun p => cl (up p.2) p.1) ++ '\'' :: r) =
+      some ((w.zipIdx k).map (fun p => cl (up p.2) p.1) ++ ['\''], r)
+  | [], k, r, _ => by simp [kw, ciChar, isAsciiLower]
+  | p :: w, k, r, h => by
+    have ih := kw_cased (env := env) up w (k + 1) r (fun q hq => h q (List.mem_cons_of_mem _ hq))
+    simp only [List.zipIdx_cons, List.map_cons, List.cons_append, kw, ciChar_cl _ p (h p (by simp)), if_true, ih]
+
+theorem caseWord_eq (up : Nat → Bool) (w : Str) : caseWord up w = (w.zipIdx 0).map (fun p => cl (up p.2) p.1) := by
+  simp [caseWord, cl]
+
+theorem geo_kw (up : Nat → Bool) (r : Str) :
+    kw E "geography'".toList (caseWord up "geography".toList ++ '\'' :: r) = some (caseWord up "geography".toList ++ ['\''], r) := by
+  rw [caseWord_eq]
+  exact kw_cased up "geography".toList 0 r (by decide)
+
+theorem geo_head (up : Nat → Bool) : ∃ t, caseWord up "geography".toList = cl (up 0) 'g' :: t := by
+  rw [caseWord_eq]; exact ⟨_, rfl⟩
+
+theorem geography_kind (up : Nat → Bool) (content rest : Str) (hb : boundary rest) :
+    lexOne pyCharEnv (geoText up content ++ rest)
+      = some (.lit .geo (content.flatMap (fun c => if c = '\'' then ['\'', '\''] else [c])), rest) := by
+  have hr : ∀ t, rest ≠ '\'' :: t := by
+    intro t h
+    rcases hb with rfl | ⟨c, t', rfl, hc⟩
+    · cases h
+    · simp at h; rcases hc with hc | hc | hc <;> (rw [hc] at h; simp at h)
+  have hbody := strBody_esc content rest hr
+  have hkw := geo_kw up (esc content ++ '\'' :: rest)
+  have htext : geoText up content ++ rest = caseWord up "geography".toList ++ '\'' :: (esc content ++ '\'' :: rest) := by
+    simp [geoText, esc, List.append_assoc]
+  rw [htext]
+  have hgeo : scanGeography E (caseWord up "geography".toList ++ '\'' :: (esc content ++ '\'' :: rest)) = some (esc content, rest) := by
+    simp only [scanGeography, hkw, Option.bind_eq_bind, Option.bind_some, hbody]
+  obtain ⟨t, ht⟩ := geo_head up
+  have hd : ciChar E 'd' (cl (up 0) 'g') = false := by cases up 0 <;> decide +kernel
+  have hq : cl (up 0) 'g' ≠ '\'' := by cases up 0 <;> decide
+  rw [ht] at hgeo ⊢
+  exact lexOne_geo (scanDuration_head hd) (scanString_head hq) hgeo
+
 end OQ.LitLex
